@@ -7,6 +7,12 @@
  *        op = h,<id:4hex>,<flags:4hex> | q,<name>,<type>,<class> | r,<an|ns|ar>,<name>,<type>,<class>,<ttl:8hex>,<rdata>
  *           | o,<udp>,<ver>,<exrc>,<exflags:4hex>,<rdata>                      (<name>,<rdata>: hex or "-")
  *   dnsname <name> <wire>               name <-> label sequence functions at exact / too small capacities
+ *   dnsx <cap> <op>;<op>;...            like dnsmsg, RDATA given in parts: r,<an|ns|ar>,<name>,<type>,<class>,<ttl>,<part>+<part>...
+ *        part = b:<hex> (plain octets) | n:<name> (a domain name, written with DomainNameToSequenceOfLabels); "-" = no RDATA.
+ *        The message is then read back like dnsp, the RDATA shapes being those of the parts.
+ *   dnsp <msg:hex> <shape>|<shape>|...  read a message back (it may use RFC 1035 4.1.4 compression pointers): one shape per
+ *        resource record in message order, shape = parts joined by '+': n (a name) | b<k> (k octets) | r (all octets) | -
+ *        -> val= sizeget= info= cnt= qd=<name>/<t>/<c>|.. rr=<sec>/<name>/<t>/<c>/<ttl>/<part>+..|..   (!<rc> where a call failed)
  *   radb <cap> <op>;...                 RADIUS builder history, then radius_pkt_chk + attribute listing
  *   rads / radp ...                     RADIUS sign / verify / password scenarios (see below)
  */
@@ -175,6 +181,159 @@ static void do_dnsname(char *args) {
 	}
 	printf("\n");
 	vh_buf_free(nm); vh_buf_free(wire);
+}
+
+
+/* ------------------------------------------------------------------ DNS: names at the RFC limits, names inside RDATA, compression */
+static void dns_read_back(uint8_t *m, size_t size, char **shapes, int nshapes) {
+	dns_hdr_p mh = (dns_hdr_p)m;
+	size_t qd = 0, an = 0, ns = 0, ar = 0, rrc = 0, sz = 0;
+	uint8_t name[320];
+	int v = dns_msg_validate(mh, size);
+	size_t sg = dns_msg_size_get(mh, size);
+	int ie = dns_msg_info_get(mh, size, &qd, &an, &ns, &ar, &rrc, &sz);
+	printf(" val=%d sizeget=%zu info=%d,%zu", v, sg, ie, sz);
+	if (ie != 0) return;
+	printf(" cnt=%u,%u,%u,%u qd=", dns_hdr_qd_get(mh), dns_hdr_an_get(mh), dns_hdr_ns_get(mh), dns_hdr_ar_get(mh));
+	size_t off = qd;
+	for (size_t i = 0; i < dns_hdr_qd_get(mh); i++) {
+		size_t nl = sizeof(name), isz = 0; uint16_t t = 0, c = 0;
+		memset(name, 0xEE, sizeof(name));
+		int e = dns_msg_question_get_data(mh, size, off, name, &nl, &t, &c, &isz);
+		if (i) putchar('|');
+		if (e != 0) { printf("!%d", e); break; }
+		hexcat(name, nl); printf("/%u/%u", t, c);
+		off += isz;
+	}
+	if (0 == dns_hdr_qd_get(mh)) putchar('-');
+	printf(" rr=");
+	const char *secn[3] = { "an", "ns", "ar" };
+	size_t secoff[3] = { an, ns, ar }, seccnt[3] = { dns_hdr_an_get(mh), dns_hdr_ns_get(mh), dns_hdr_ar_get(mh) };
+	int k = 0, stop = 0;
+	for (int s = 0; s < 3 && !stop; s++) {
+		off = secoff[s];
+		for (size_t i = 0; i < seccnt[s] && !stop; i++, k++) {
+			size_t nl = sizeof(name), isz = 0; uint16_t t = 0, c = 0, dsz = 0; uint32_t ttl = 0; void *data = NULL;
+			memset(name, 0xEE, sizeof(name));
+			int e = dns_msg_rr_get_data(mh, size, off, name, &nl, &t, &c, &ttl, &dsz, &data, &isz);
+			if (k) putchar('|');
+			printf("%s/", secn[s]);
+			if (e != 0) { printf("!%d", e); stop = 1; break; }
+			hexcat(name, nl); printf("/%u/%u/%08x/", t, c, (unsigned)ttl);
+			const char *sh = (k < nshapes) ? shapes[k] : "r";
+			size_t pos = 0; int first = 1;
+			uint8_t *rd = (uint8_t*)data;
+			while (*sh && *sh != '-') {
+				if (!first) putchar('+');
+				first = 0;
+				if (*sh == 'n') {
+					size_t roff = (size_t)(rd - m) + pos, rl = sizeof(name), nsz = 0;
+					memset(name, 0xEE, sizeof(name));
+					e = (pos >= dsz) ? -3 : dns_msg_sequence_of_labels2name(mh, size, roff, name, rl, &rl);
+					if (e != 0) { printf("n:!%d", e); break; }
+					printf("n:"); hexcat(name, rl);
+					if (0 != SequenceOfLabelsGetSize(m + roff, size - roff, &nsz)) { printf("+!size"); break; }
+					pos += nsz;
+					sh++;
+				} else if (*sh == 'b') {
+					size_t cnt = (size_t)strtoul(sh + 1, (char**)&sh, 10);
+					if (pos + cnt > dsz) { printf("b:!short"); break; }
+					printf("b:"); hexcat(rd + pos, cnt); pos += cnt;
+				} else { /* 'r' */
+					printf("b:"); hexcat(rd + pos, dsz - pos); pos = dsz; sh++;
+				}
+				if (*sh == '+') sh++;
+			}
+			if (first) putchar('-');
+			if (pos != dsz) printf("+!rdlength=%u,used=%zu", dsz, pos);
+			off += isz;
+		}
+	}
+	if (k == 0) putchar('-');
+}
+
+static void do_dnsp(char *args) {
+	char *f[2]; int nf = split(args, ' ', f, 2);
+	if (nf < 1) { printf("dnsp bad\n"); return; }
+	size_t n = 0; uint8_t *m = vh_unhex(f[0], &n);
+	char *shapes[MAXTOK]; int ns = (nf > 1) ? split(f[1], '|', shapes, MAXTOK) : 0;
+	printf("dnsp");
+	dns_read_back(m, n, shapes, ns);
+	printf("\n");
+	vh_buf_free(m);
+}
+
+static void do_dnsx(char *args) {
+	char *sp = strchr(args, ' ');
+	if (!sp) { printf("dnsx bad\n"); return; }
+	*sp = 0;
+	size_t cap = (size_t)atol(args), cur = 0;
+	char *ops[MAXTOK]; int nops = split(sp + 1, ';', ops, MAXTOK);
+	uint8_t *buf = vh_buf(cap);
+	dns_hdr_p h = (dns_hdr_p)buf;
+	static char shapebuf[MAXTOK][64]; char *shapes[MAXTOK]; int nshapes = 0;
+	int rcs[MAXTOK]; size_t needs[MAXTOK];
+	for (int i = 0; i < nops; i++) {
+		char *f[12]; int nf = split(ops[i], ',', f, 12);
+		size_t need = (size_t)-1, n1 = 0, n2 = 0; int rc = -1;
+		if (f[0][0] == 'h' && nf == 3) {
+			uint8_t *id = vh_unhex(f[1], &n1), *fl = vh_unhex(f[2], &n2);
+			uint16_t id16, fl16; memcpy(&id16, id, 2); memcpy(&fl16, fl, 2);
+			rc = dns_hdr_create(id16, fl16, h, cap, &need);
+			vh_buf_free(id); vh_buf_free(fl);
+		} else if (f[0][0] == 'q' && nf == 4) {
+			uint8_t *nm = vh_unhex(f[1], &n1);
+			rc = dns_msg_question_add(h, cur, cap, 0, nm, n1, (uint16_t)atoi(f[2]), (uint16_t)atoi(f[3]), &need);
+			vh_buf_free(nm);
+		} else if (f[0][0] == 'r' && nf == 7) {
+			uint8_t *nm = vh_unhex(f[2], &n1);
+			uint32_t ttl = (uint32_t)strtoul(f[5], NULL, 16);
+			/* RDATA: the parts one after the other in an exact-size block; names through the library's encoder */
+			char *parts[16]; int np = (f[6][0] == '-') ? 0 : split(f[6], '+', parts, 16);
+			size_t total = 0, pl[16]; uint8_t *pv[16];
+			char *shp = shapebuf[nshapes]; shp[0] = 0;
+			for (int p = 0; p < np; p++) {
+				pv[p] = vh_unhex(parts[p] + 2, &pl[p]);
+				if (parts[p][0] == 'n') { total += pl[p] ? pl[p] + 2 : 1; strcat(shp, p ? "+n" : "n"); }
+				else { total += pl[p]; sprintf(shp + strlen(shp), "%sb%zu", p ? "+" : "", pl[p]); }
+			}
+			if (np == 0) strcpy(shp, "-");
+			uint8_t *rd = vh_buf(total); size_t at = 0; int enc_err = 0;
+			for (int p = 0; p < np; p++) {
+				if (parts[p][0] == 'n') {
+					size_t sz = 0, want = pl[p] ? pl[p] + 2 : 1;
+					int e = DomainNameToSequenceOfLabels(pv[p], pl[p], rd + at, want, &sz);
+					if (e != 0 || sz != want) enc_err = e ? e : -4;
+					at += want;
+				} else { memcpy(rd + at, pv[p], pl[p]); at += pl[p]; }
+				vh_buf_free(pv[p]);
+			}
+			if (enc_err) rc = 1000 + enc_err; /* the RDATA name encoder refused a valid name */
+			else rc = dns_msg_rr_add(h, cur, cap, 0, nm, n1, (uint16_t)atoi(f[3]), (uint16_t)atoi(f[4]), ttl, (uint16_t)total, rd, &need);
+			if (rc == 0) {
+				if (!strcmp(f[1], "an")) dns_hdr_an_inc(h, 1);
+				else if (!strcmp(f[1], "ns")) dns_hdr_ns_inc(h, 1);
+				else dns_hdr_ar_inc(h, 1);
+				shapes[nshapes] = shp; nshapes++;
+			}
+			vh_buf_free(nm); vh_buf_free(rd);
+		}
+		rcs[i] = rc; needs[i] = need;
+		if (rc == 0) cur = need;
+	}
+	printf("dnsx rcs=");
+	for (int i = 0; i < nops; i++) printf("%s%d", i ? "," : "", rcs[i]);
+	printf(" needs=");
+	for (int i = 0; i < nops; i++) printf("%s%zd", i ? "," : "", (ssize_t)needs[i]);
+	if (cur > cap) { printf(" msg=OVERCAP:%zu\n", cur); vh_buf_free(buf); return; }
+	printf(" msg="); hexcat(buf, cur);
+	if (cur >= sizeof(dns_hdr_t)) {
+		uint8_t *m = vh_buf(cur); memcpy(m, buf, cur);       /* read back a copy that is exactly as large as the message */
+		dns_read_back(m, cur, shapes, nshapes);
+		vh_buf_free(m);
+	}
+	printf("\n");
+	vh_buf_free(buf);
 }
 
 /* ------------------------------------------------------------------ RADIUS */
@@ -399,6 +558,8 @@ int main(void) {
 		alarm(20);
 		if (!strncmp(line, "dnsmsg ", 7)) do_dnsmsg(line + 7);
 		else if (!strncmp(line, "dnsname ", 8)) do_dnsname(line + 8);
+		else if (!strncmp(line, "dnsx ", 5)) do_dnsx(line + 5);
+		else if (!strncmp(line, "dnsp ", 5)) do_dnsp(line + 5);
 		else if (!strncmp(line, "radb ", 5)) do_radb(line + 5);
 		else if (!strncmp(line, "rads ", 5)) do_rads(line + 5);
 		else if (!strncmp(line, "radp ", 5)) do_radp(line + 5);
